@@ -16,7 +16,21 @@ static char *vp_c20_ext;
 void vp_c20_set_extension(char *e) { vp_c20_ext = e; }
 void _ZNK11QXmppClient10extensionsEv(char *ret, char *self) { struct ld *t = ld_new(0); if (vp_c20_ext) { t->array[LD_B] = vp_c20_ext; t->end = LD_B + 1; } *(struct ld**)ret = t; }
 #endif
+/* QDateTime members of stanza / error private blocks: never inspected here */
+void _ZN9QDateTimeC1Ev(char *self) { *(char**)self = 0; }
+void _ZN9QDateTimeC1ERKS_(char *self, char *o) { *(char**)self = *(char**)o; }
+void _ZN9QDateTimeD1Ev(char *self) { }
 /* qobject_cast<QXmppDiscoveryManager*>(ext): the only extension is the discovery manager */
 char* _ZNK11QMetaObject4castEP7QObject(char *self, char *obj) { return obj; }
 char* _ZNK11QMetaObject4castEPK7QObject(char *self, char *obj) { return obj; }
+
+/* private-data destructors and list deallocation of stanzas: skipped (no memory-reclamation claim; symex cannot fold the reference
+   counts of blocks reached through the std::variant result and would walk every member list) */
+void _ZN18QXmppStanzaPrivateD2Ev(char *self) { }
+void _ZN23QXmppDiscoveryIqPrivateD2Ev(char *self) { }
+void _ZN23QXmppStanzaErrorPrivateD2Ev(char *self) { }
+void _ZN29QXmppDiscoveryIdentityPrivateD2Ev(char *self) { }
+void _ZN5QListI12QXmppElementE7deallocEPN9QListData4DataE(char *self, char *d) { }
+void _ZN5QListI20QXmppExtendedAddressE7deallocEPN9QListData4DataE(char *self, char *d) { }
+void _ZN5QListIN16QXmppDiscoveryIq4ItemEE7deallocEPN9QListData4DataE(char *self, char *d) { }
 #endif
